@@ -500,6 +500,44 @@ def o_c09(tr):
                 yield {"oracle": "ids-sequential", "signature": m + ".next", "detail": ""}
 
 
+def o_owner_writes(tr):
+    """only the owner records to / purchases storage for a registration — judged with the owners committed before the block
+    plus the registrations that succeeded earlier in the same block, at any nesting depth of authz.exec"""
+    for prev, b, d in states(tr):
+        if prev is None:
+            continue
+        owners = {m: {i: addr_id(r["owner"]) for i, r in prev.reg[m].items()} for m in ("wrk", "bcn")}
+        nxt = dict(prev.next)
+        for tx in b["txs"]:
+            if tx["result"] != "ok":
+                continue
+            leaves = []
+
+            def walk(t):
+                k, args, subs = t
+                if k == "authz.exec":
+                    for x in subs:
+                        walk(x)
+                else:
+                    leaves.append((k, args))
+            for m in split_msgs(tx["body"]):
+                try:
+                    walk(parse_msg(m, 0)[0])
+                except (KeyError, ValueError, IndexError):
+                    pass
+            for k, args in leaves:
+                mod = k[:3]
+                if k in ("wrk.reg", "bcn.reg"):
+                    owners[mod][nxt[mod]] = addr_id(args[-1]); nxt[mod] += 1
+                elif k in ("wrk.rec", "wrk.buy", "bcn.rec", "bcn.buy"):
+                    who = addr_id(args[SIGNER_POS[k]])
+                    own = owners[mod].get(int(args[0]))
+                    if own is None:
+                        yield {"oracle": "owner-only-writes", "signature": k + "/unknown-id", "detail": "tx %s: %s on registration %s which does not exist" % (tx["n"], k, args[0])}
+                    elif own != who:
+                        yield {"oracle": "owner-only-writes", "signature": k, "detail": "tx %s: %s by %s on registration %s owned by %s" % (tx["n"], k, who, args[0], own)}
+
+
 def o_c10(tr):
     for prev, b, d in states(tr):
         per = {}
@@ -509,6 +547,29 @@ def o_c10(tr):
                 per[dn] = per.get(dn, 0) + a
         if per != d.bal.get("Mstr", {}):
             yield {"oracle": "escrow=sum-deposits", "signature": "mismatch", "detail": "%s vs %s" % (d.bal.get("Mstr", {}), per)}
+
+
+def o_c10_fee(tr):
+    """each release pays the fee collector floor(released x validator-fee rate) and the receiver the rest (rate = the one
+    committed before the block; parameter changes take effect at the end of a block)"""
+    for prev, b, d in states(tr):
+        if prev is None:
+            continue
+        rate = prev.str_fee
+        for tx in b["txs"]:
+            if tx["result"] != "ok":
+                continue
+            k = 0
+            while ("%d.total" % k) in tx["fields"] or ("%d.pay" % k) in tx["fields"] or k < len(split_msgs(tx["body"])):
+                f = tx["fields"]
+                if ("%d.total" % k) in f and ("%d.fee" % k) in f and ("%d.pay" % k) in f:
+                    total, fee, pay = int(f["%d.total" % k]), int(f["%d.fee" % k]), int(f["%d.pay" % k])
+                    want = total * rate // 10**18 if rate > 0 else 0
+                    if fee != want or pay != total - fee:
+                        yield {"oracle": "fee-split", "signature": "fee!=floor(released*rate)", "detail": "tx %s message %d: released %d at rate %d/10^18: fee %d (want %d), receiver %d" % (tx["n"], k, total, rate, fee, want, pay)}
+                k += 1
+                if k > 16:
+                    break
 
 
 def o_c11(tr):
@@ -921,9 +982,9 @@ def o_invariants(tr):
 
 
 ORACLES = {
-    "C02": [o_c02, o_invariants], "C03": [o_c03], "C04": [o_c04, o_invariants], "C05": [o_c05, o_c05_granter, o_c05_amount], "C07": [o_c07], "C08": [o_c08],
-    "C09": [o_c09], "C10": [o_c10, o_invariants], "C11": [o_c11], "C12": [o_c12], "C14": [o_c14], "C16": [o_c16, o_c03], "C18": [o_c18],
-    "C13": [o_c13], "C17": [o_c17], "C20": [o_c20], "C15": [o_c15, o_invariants], "C06": [o_c06], "C01": [],
+    "C02": [o_c02, o_invariants, o_c03], "C03": [o_c03], "C04": [o_c04, o_invariants], "C05": [o_c05, o_c05_granter, o_c05_amount], "C07": [o_c07], "C08": [o_c08],
+    "C09": [o_c09, o_owner_writes], "C10": [o_c10, o_c10_fee, o_invariants], "C11": [o_c11], "C12": [o_c12], "C14": [o_c14], "C16": [o_c16, o_c03], "C18": [o_c18],
+    "C13": [o_c13, o_owner_writes], "C17": [o_c17], "C20": [o_c20], "C15": [o_c15, o_invariants], "C06": [o_c06], "C01": [],
 }
 
 
